@@ -12,7 +12,7 @@ LEVEL = "fault_enumeration"
 EXAMPLES = {"quick": 640, "thorough": 16000}
 SHRINK_S = {"quick": 30, "thorough": 120}
 CALCS = ["runpp", "runpp_bfsw", "runpp_qlims", "rundcpp", "runopp", "rundcopp", "runpp_3ph", "calc_sc_3ph", "calc_sc_2ph",
-         "calc_sc_1ph", "calc_sc_min_branch", "estimate", "run_contingency", "run_control"]
+         "calc_sc_1ph", "calc_sc_min_branch", "estimate", "run_contingency"]
 NATURAL = ["none", "no-slack", "df-zero", "nan-parameter", "unknown-algorithm", "overload", "zip-over-100", "conflicting-setpoints"]
 RULE = ("Enumerated part: EVERY distinct crash point (function x first/last call x before/after) of the recorded call trace of fixed networks (dcline, tap table, 3W transformer) for 3 (quick) / all 14 x 2 (thorough) calculations. Generated part: Hypothesis draws a network recipe (dclines, tap-table transformers, short-circuit / zero-sequence / OPF / measurement "
         "data, tap controller), one calculation of " + ", ".join(CALCS) + " and a fault: none | natural (" + ", ".join(NATURAL[1:]) +
